@@ -148,6 +148,26 @@ class MergerConfig:
             return AoHMergeOpts.from_str(self.config["defaults"]["aoh"])
         return AoHMergeOpts.ALL
 
+    def node_merge_rule(
+        self, node_coord: NodeCoords
+    ) -> Optional[AoHMergeOpts]:
+        """
+        Get the merge rule set for precisely the indicated node, if any.
+
+        Unlike the *_merge_mode methods, neither CLI nor [defaults] options
+        apply; only a [rules] entry for the node itself is considered.  This
+        serves nodes which are neither Hashes, Sets, nor Arrays-of-Hashes.
+
+        Parameters:
+        1. node_coord (NodeCoords) The node for which to query.
+
+        Returns:  (Optional[AoHMergeOpts]) Applicable rule or None.
+        """
+        merge_rule = self._get_rule_for(node_coord)
+        if merge_rule:
+            return AoHMergeOpts.from_str(merge_rule)
+        return None
+
     def set_merge_mode(self, node_coord: NodeCoords) -> SetMergeOpts:
         """
         Get Set merge mode applicable to the indicated path.
